@@ -394,6 +394,8 @@ def argv_for(opts, starts, dbpath, extra=()):
     else:
         argv += ['--database', dbpath]
     argv += ['--delete-after', '--no-check-certificate', '--waitretry', '0', '-q']
+    if opts.get('input_file'):
+        argv += ['--input-file', opts['input_file']]
     if opts.get('recursive'):
         argv.append('-r')
     if opts.get('level') not in (None, 5):
